@@ -528,6 +528,35 @@ def apply_edit(idx, edit, entries):
                                          flags=FLAG_VALID if e.valid else 0, extended_flags=e.ext)
                 want = [x for x in want if x.path != e.path] + [e._replace(stage=0)]
                 break
+    elif edit in ("resolve-reuse", "restage-reuse"):
+        # the same with the entry *objects* the reader produced (they still carry the stage they were read at in
+        # .flags): resolve the first conflict in favour of one of its sides / move its sides to other stages
+        from dulwich.index import ConflictedIndexEntry
+
+        for e in sorted(want, key=M.sort_key):
+            if e.stage == 0:
+                continue
+            ent = idx[e.path]
+            if not isinstance(ent, ConflictedIndexEntry):
+                break
+            sides = {1: ent.ancestor, 2: ent.this, 3: ent.other}
+            have = sorted(k for k, v in sides.items() if v is not None)
+            olds = {x.stage: x for x in want if x.path == e.path}
+            if edit == "resolve-reuse":
+                pick = have[-1]
+                idx[e.path] = sides[pick]
+                want = [x for x in want if x.path != e.path] + [olds[pick]._replace(stage=0)]
+            else:
+                # rotate: what was read at the lowest stage goes to the next free higher one
+                src = have[0]
+                dst = 2 if src == 1 else 3 if src == 2 else 1
+                new = {k: v for k, v in sides.items() if k != src}
+                new[dst] = sides[src]
+                idx[e.path] = ConflictedIndexEntry(ancestor=new.get(1), this=new.get(2), other=new.get(3))
+                repl = {k: olds[k] for k in olds if k != src and k != dst}
+                repl[dst] = olds[src]._replace(stage=dst)
+                want = [x for x in want if x.path != e.path] + list(repl.values())
+            break
     want.sort(key=M.sort_key)
     return want
 
@@ -881,7 +910,7 @@ def _strategies():
         exts = draw(st.lists(ext, max_size=3, unique_by=lambda t: t[0]))
         if draw(st.sampled_from(range(20))) == 13:  # (Hypothesis favours the first elements: keep rare things in the middle)
             exts.append((b"zzzz", b"mandatory"))
-        edit = draw(st.sampled_from(["none", "none", "add", "del", "skip-worktree", "resolve"]))
+        edit = draw(st.sampled_from(["none", "none", "add", "del", "skip-worktree", "resolve", "resolve-reuse", "restage-reuse"]))
         return dict(version=version, skip_hash=c["skip_hash"], entries=ents, extensions=exts, edit=edit,
                     wskip=draw(st.sampled_from([False, False, True])))
 
@@ -935,7 +964,7 @@ def _strategies():
             reuc=draw(st.booleans()),
             untr=draw(st.sampled_from([False, False, True])),
             eoie=draw(st.sampled_from([False, True])),
-            edit=draw(st.sampled_from(["none", "none", "add", "del", "skip-worktree", "resolve"])),
+            edit=draw(st.sampled_from(["none", "none", "add", "del", "skip-worktree", "resolve", "resolve-reuse", "restage-reuse"])),
             wskip=draw(st.sampled_from([False, False, False, True])),
         )
 
@@ -1285,6 +1314,10 @@ def run(ctx):
         items += [("damage", (16, k, ctx.thorough))]
     items.append(("scenario", 0))
     ctx.parallel(_part, items)
+    # coverage-guided campaigns over raw index bytes with the "file" oracle inside the target (E3)
+    from .. import fuzz
+
+    fuzz.run_campaigns(ctx, "vf.fuzzt.c11", [("index_file", ctx.scale(15000, 1500000), ctx.scale(8, 16))])
 
 
 def replay(ctx, check, case):
@@ -1296,5 +1329,9 @@ def replay(ctx, check, case):
         run_file(ctx, case["data"], case["edit"], git_check=case.get("git", True), wskip=case.get("wskip", False))
     elif check == "damage":
         judge_damage(ctx, case["data"], tuple(case["op"]))
+    elif check.startswith("fuzz"):
+        from .. import fuzz
+
+        fuzz.replay(ctx, case, check)
     else:
         raise HarnessError(f"unknown check {check!r}")
